@@ -72,7 +72,7 @@ def alpha(fn: ast.FunctionDef):
             h.update(type(node).__name__.encode())
             h.update(b"(")
             for fld in node._fields:
-                if fld in ("type_comment", "ctx"):
+                if fld in ("type_comment", "ctx", "type_params"):
                     continue
                 v = getattr(node, fld, None)
                 if isinstance(node, ast.Name) and fld == "id" and v in locs:
@@ -123,6 +123,12 @@ def reference() -> dict:
     global _REF_CACHE
     if _REF_CACHE is None:
         _REF_CACHE = json.loads(REF.read_text()) if REF.exists() else {}
+        import sys
+
+        # the hashes are over this interpreter's syntax tree: a reference written by another Python
+        # version describes different trees, so it is not used (normalisation is an optimisation only)
+        if _REF_CACHE.get("__python__", {}).get("version") != "%d.%d" % sys.version_info[:2]:
+            _REF_CACHE = {}
     return _REF_CACHE
 
 
@@ -140,6 +146,11 @@ def normalise(modname: str, tree: ast.Module, src_sha: str | None = None) -> lis
         if not isinstance(r, dict):
             continue
         key, order = alpha(fn)
+        if key != r["key"] and "ikey" in r:
+            # not the reference function up to renaming: is it the reference up to single-use temporaries?
+            if substitute_if_temp_equivalent(modname, q, fn, r):
+                done.append(q + " (temporaries)")
+            continue
         if key != r["key"] or order == r["names"] or len(order) != len(r["names"]):
             continue
         # two-phase rename to avoid collisions between old and new names
@@ -156,3 +167,55 @@ def normalise(modname: str, tree: ast.Module, src_sha: str | None = None) -> lis
                 n.name = n.name[1:]
         done.append(q)
     return done
+
+
+SRC = REF.with_name("func_reference.json.gz")
+_SRC_CACHE = None
+
+
+def _sources() -> dict:
+    global _SRC_CACHE
+    if _SRC_CACHE is None:
+        import gzip
+
+        _SRC_CACHE = json.loads(gzip.decompress(SRC.read_bytes()).decode()) if SRC.exists() else {}
+    return _SRC_CACHE
+
+
+def inlined_key(fn: ast.FunctionDef) -> str:
+    """alpha key of a copy of `fn` with every safe single-use temporary inlined (inline.py)"""
+    from .inline import inline_temps
+
+    # a fresh copy by print + parse (deepcopy would follow the parent links the canon pass leaves on nodes)
+    c = ast.parse(ast.unparse(fn)).body[0]
+    inline_temps(c, local_names(c))
+    return alpha(c)[0]
+
+
+def substitute_if_temp_equivalent(modname: str, q: str, fn: ast.FunctionDef, r: dict) -> bool:
+    """If `fn` with its safe temporaries inlined is alpha-equal to the reference function with *its*
+    safe temporaries inlined, the two are the same program up to introduce/inline-local refactors and
+    renaming: give the rules the reference spelling (same def line; statements keep the reference's
+    relative line numbers) so that their verdict does not depend on where a maintainer put a local.
+    Anything else leaves `fn` untouched."""
+    if inlined_key(fn) != r["ikey"]:
+        return False
+    src = _sources().get(modname, {}).get(q)
+    if src is None:
+        return False
+    try:
+        new = ast.parse(src).body[0]
+    except SyntaxError:
+        return False
+    if not isinstance(new, ast.FunctionDef):
+        return False
+    from .canon import canonicalise
+
+    wrapper = ast.Module(body=[new], type_ignores=[])
+    canonicalise(wrapper)
+    if alpha(new)[0] != r["key"]:
+        return False  # the stored text is not the function the record describes: do nothing
+    ast.increment_lineno(new, fn.lineno - new.lineno)
+    doc = fn.body[:1] if fn.body and isinstance(fn.body[0], ast.Expr) and isinstance(fn.body[0].value, ast.Constant) and isinstance(fn.body[0].value.value, str) else []
+    fn.args, fn.body, fn.decorator_list, fn.returns = new.args, doc + new.body, new.decorator_list, new.returns
+    return True
